@@ -19,6 +19,8 @@ for p in props:
     if pid not in mods or pid in NA:
         continue
     m = mods[pid]
+    src = open(os.path.join(VERIF, 'lomondsa', 'rules', pid + '.py')).read()
+    rule_ids = sorted(set(re.findall(r"R\.rule\('(%s\.\w+)'" % pid, src)))
     checks.append({
         'property_id': pid,
         'quick_cmd': './check %s --tier quick' % pid,
@@ -27,7 +29,9 @@ for p in props:
         'replay_cmd_template': './check %s --replay {path}' % pid,
         'engine': 'lomondsa',
         'level_claimed': {'category': getattr(m, 'LEVEL', 'other'),
-                          'text': m.EXPLANATION + ' NOT decided: ' + getattr(m, 'NOT_DECIDED', ''),
+                          'text': m.EXPLANATION + ' Rule families evaluated on every run (each with its instances listed in the '
+                                  'evidence file; families shared with other properties run under this property\'s ids): '
+                                  + ', '.join(rule_ids) + '. NOT decided: ' + getattr(m, 'NOT_DECIDED', ''),
                           'design_ref': 'DESIGN.md section 3, ' + pid},
         'level_note': 'Trusted: CPython ast; lomondsa CFG/exception-edge/type-propagation construction; the external '
                       'may-raise table. Assumed: ' + '; '.join(getattr(m, 'ASSUMPTIONS', [])),
